@@ -77,6 +77,29 @@ pub fn check_default(kind: Kind, clock: Clock, spec: &[i128]) -> Result<(), Stri
             let h24 = (a(2) % 12) + if a(4) != 0 { 12 } else { 0 };
             ("DD HH:MI PM".into(), format!("{} {}:{:02} {}", a(1), a(2), a(3), if a(4) != 0 { "pm" } else { "AM" }), with_time(date(cy, cm, a(1)), h24 as i128 * US_PER_HOUR + a(3) as i128 * US_PER_MIN))
         }
+        // 15: short year + day of year "Y{n} DDD"   (n, value, doy, order)
+        15 => {
+            let n = a(1) as u32;
+            let y = short(n, a(2));
+            let ys = format!("{:0w$}", a(2), w = n as usize);
+            if a(4) == 0 {
+                (format!("{} DDD", "Y".repeat(n as usize)), format!("{ys} {:03}", a(3)), with_time(c.lookup_doy(y, a(3)).map(|n| n as i128), 0))
+            } else {
+                (format!("DDD-{}", "Y".repeat(n as usize)), format!("{}-{ys}", a(3)), with_time(c.lookup_doy(y, a(3)).map(|n| n as i128), 0))
+            }
+        }
+        // 16: short year + month only "MM/Y{n}" (day defaults to 1)
+        16 => {
+            let n = a(1) as u32;
+            let y = short(n, a(2));
+            (format!("MM/{}", "Y".repeat(n as usize)), format!("{}/{}", a(3), a(2)), with_time(date(y, a(3), 1), 0))
+        }
+        // 17: short year + day only "Y{n} DD" (month from the clock)
+        17 => {
+            let n = a(1) as u32;
+            let y = short(n, a(2));
+            (format!("{} DD", "Y".repeat(n as usize)), format!("{} {}", a(2), a(3)), with_time(date(y, cm, a(3)), 0))
+        }
         k => return Err(format!("unknown default spec {k}")),
     };
     // time-bearing specs make no sense for the plain Date type: an error is required there
@@ -198,6 +221,21 @@ fn specs_for(r: &Row, idx: u64, seed: u64, thorough: bool) -> Vec<Vec<i128>> {
     for val in y3 {
         v.push(vec![13, 3, val]);
         v.push(vec![7, 3, val, 12, 31]);
+    }
+    // short years crossed with day of year / month / day
+    let ns: Vec<i128> = if thorough { vec![1, 2, 3] } else { vec![1 + (idx % 3) as i128] };
+    for n in ns {
+        let m = 10i128.pow(n as u32);
+        let vals: Vec<i128> = if thorough { vec![0, 1, m - 1, sm.below(m as u64) as i128] } else { vec![0, if idx % 2 == 0 { m - 1 } else { sm.below(m as u64) as i128 }] };
+        for val in vals {
+            for doy in [1i128, 59, 60, 61, 365, 366] {
+                v.push(vec![15, n, val, doy, (doy + val) % 2]);
+            }
+            v.push(vec![16, n, val, 2]);
+            v.push(vec![16, n, val, 1 + sm.below(12) as i128]);
+            v.push(vec![17, n, val, 29]);
+            v.push(vec![17, n, val, 31]);
+        }
     }
     v.push(vec![9, 13, 45]);
     v.push(vec![9, 0, 0]);
